@@ -694,3 +694,96 @@ func ErrorContextsGrammar(r *rng.R) *gram.Grammar {
 	}
 	return g
 }
+
+// LargeGrammar: some hundred statement forms, each introduced by its own pair
+// of keywords: several hundred productions and well over a thousand states
+// (the reference LALR(1) builder keeps lookahead sets in 64 bits, so the
+// number of tokens stays below that). Anything the generator or the generated
+// code stores in fewer bits than it needs (production, state or row numbers,
+// negative reduce entries) shows.
+func LargeGrammar(r *rng.R) *gram.Grammar {
+	const nk = 18
+	n := r.Range(258, 300)
+	g := &gram.Grammar{}
+	tok := func(name, lit string) gram.Ref {
+		g.Tokens = append(g.Tokens, gram.Token{Name: name, Lit: lit})
+		return gram.Ref{Kind: gram.KTok, Idx: len(g.Tokens) - 1}
+	}
+	x, y, end, sep := tok("X", "x"), tok("Y", "y"), tok("END", ";"), tok("SEP", ",")
+	var kw []gram.Ref
+	for i := 0; i < nk; i++ {
+		kw = append(kw, tok(fmt.Sprintf("K%02d", i), fmt.Sprintf("k%02d", i)))
+	}
+	g.Rules = append(g.Rules, gram.Rule{Name: "s"}, gram.Rule{Name: "stmt"})
+	stmt := gram.Ref{Kind: gram.KRule, Idx: 1}
+	g.Rules[0].Prods = []gram.Prod{P(TS(stmt, gram.Plus))}
+	pairs := r.Perm(nk * nk)
+	for i := 0; i < n; i++ {
+		k1, k2 := kw[pairs[i]/nk], kw[pairs[i]%nk]
+		var body []gram.Term
+		switch r.Intn(6) {
+		case 0:
+			body = []gram.Term{T(x)}
+		case 1:
+			body = []gram.Term{T(x), TS(y, gram.Opt)}
+		case 2:
+			body = []gram.Term{TL(x, sep, false)}
+		case 3:
+			body = []gram.Term{TS(x, gram.Star), T(y)}
+		case 4:
+			// a rule of its own
+			ri := len(g.Rules)
+			self := gram.Ref{Kind: gram.KRule, Idx: ri}
+			g.Rules = append(g.Rules, gram.Rule{Name: fmt.Sprintf("in%03d", i), Prods: []gram.Prod{P(T(x)), P(T(y), T(self))}})
+			body = []gram.Term{T(self)}
+		default:
+			body = []gram.Term{T(y), T(x), T(x)}
+		}
+		terms := append([]gram.Term{T(k1), T(k2)}, body...)
+		terms = append(terms, T(end))
+		g.Rules[1].Prods = append(g.Rules[1].Prods, P(terms...))
+	}
+	g.Start = 0
+	return g
+}
+
+// ErrorNestedGrammar: an @error term followed, inside the same production, by
+// a rule that has an error production of its own (or a production with two
+// @error terms): two Error values can sit on the parser stack at once, and a
+// third error can pop both.
+//
+//	stmt = K L body R stmt | K L @error R stmt | body S | @error S
+func ErrorNestedGrammar(r *rng.R) *gram.Grammar {
+	g := &gram.Grammar{}
+	n := 8
+	for i := 0; i < n; i++ {
+		g.Tokens = append(g.Tokens, gram.Token{Name: tokNames[i], Lit: string(rune('a' + i))})
+	}
+	perm := r.Perm(n)
+	tk := func(i int) gram.Term { return gram.Term{Ref: gram.Ref{Kind: gram.KTok, Idx: perm[i]}} }
+	rl := func(i int) gram.Term { return gram.Term{Ref: gram.Ref{Kind: gram.KRule, Idx: i}} }
+	e := gram.Term{Ref: gram.Ref{Kind: gram.KErr}}
+	// rule 0: prog, rule 1: stmt, rule 2: body
+	stmt := gram.Rule{Name: "stmt"}
+	switch r.Intn(3) {
+	case 0:
+		stmt.Prods = []gram.Prod{P(tk(0), tk(1), rl(2), tk(2), rl(1)), P(tk(0), tk(1), e, tk(2), rl(1)), P(rl(2), tk(3)), P(e, tk(3))}
+	case 1:
+		// no opening bracket: the outer error term comes right after the keyword
+		stmt.Prods = []gram.Prod{P(tk(0), rl(2), tk(2), rl(1)), P(tk(0), e, tk(2), rl(1)), P(rl(2), tk(3)), P(e, tk(3))}
+	default:
+		// one production with two error terms
+		stmt.Prods = []gram.Prod{P(tk(0), rl(2), tk(2), rl(2), tk(3)), P(tk(0), e, tk(2), e, tk(3)), P(rl(2), tk(3))}
+	}
+	body := gram.Rule{Name: "body", Prods: []gram.Prod{P(tk(4)), P(tk(5))}}
+	if r.Chance(1, 3) {
+		body.Prods = append(body.Prods, P(tk(1), rl(2), tk(2)))
+	}
+	prog := gram.Rule{Name: "prog", Prods: []gram.Prod{P(gram.Term{Ref: gram.Ref{Kind: gram.KRule, Idx: 1}, Sugar: gram.Plus})}}
+	if r.Chance(1, 3) {
+		prog.Prods = []gram.Prod{P(rl(1))}
+	}
+	g.Rules = []gram.Rule{prog, stmt, body}
+	g.Start = 0
+	return g
+}
